@@ -21,7 +21,15 @@ def gen_ops(tier, rng):
     cs = geo_gens.cells(drv, tier, rng, 200 if tier == 'quick' else 5000)
     if tier == 'quick' and len(cs) > 900:
         cs = rng.sample(cs, 900)
-    return [f'c2l {c}' for c in cs] + ['c2l 0']
+    ops = [f'c2l {c}' for c in cs] + ['c2l 0']
+    # the way back: lonlat_to_cell at the implementation's own centre (ties find_nearest_origin + the sampling spiral on exactly the points the property quantifies over)
+    for c in cs[:: (3 if tier == 'quick' else 2)]:
+        try:
+            lo, la = drv.a5.cell_to_lonlat(c)
+        except Exception:  # noqa
+            continue
+        ops.append(f'l2c {geo_gens.fb(lo)} {geo_gens.fb(la)} {ref_res(c)}')
+    return ops
 
 def check_cell(drv, c, fails):
     a5 = drv.a5
